@@ -1,14 +1,20 @@
 """C17 - swizzles and constructors select and place exactly the named components.
 
-E1  MC_C17: every index pattern x source length x letter set, every constructor shape, 81 matrix conversions,
-    the quaternion forms; invariants = the laws of the property; the same run EMITS the enumeration (E2).
-E2  gen/gen_c17.py pastes every emitted name / shape into C++ source text (batches in the scratch directory).
-E3  one harness binary per build configuration (member-function swizzles + free functions + constructors;
-    operator swizzles + assignments at SSE2 with packed and aligned types; XYZW_ONLY; the two quaternion
-    layouts; AVX2 and a clang build in the thorough tier).
-E4  Trace_C17 judges every event.
-Compile census: the batches listed in ABSENT do not exist in GLM (do not compile) on the unchanged tree; they
-are re-checked on every run, and a batch that should compile but does not is a VIOLATION naming the batch."""
+E1  MC_C17: every index pattern x source length 1..4 x letter set, every vector constructor shape, 81 matrix conversions, the
+    quaternion forms; invariants = the laws of the property; the same run EMITS the enumeration (E2).
+E2  gen/gen_c17.py pastes every emitted name / shape into C++ source text: batches in the scratch directory.
+E3  build units (a unit = harness/c17.cpp + a subset of the batches):
+      fn_swz fn_ctor   g++      -DGLM_FORCE_SWIZZLE: member-function swizzles, gtx/vec_swizzle free functions, constructors
+      op_swz op_ctor   clang++  + -DGLM_FORCE_INTRINSICS -msse2: operator swizzles (read, 4 assignments per writable accessor),
+                                packed and aligned types (the _mm_shuffle specialisations, the SIMD constructors)
+      op_av2           g++ -O0  4-letter operator accessors of aligned vec2 sources under a fault guard
+      xyzw             GLM_FORCE_XYZW_ONLY;   qwxyz / qxyzw   the quaternion storage / argument-order configurations
+    thorough: avx2_* (clang++ -mavx2 -mfma), fnclang_*, opg_* (the operator form with g++, split in 7 units because g++ needs
+    ~0.15 s per accessor in that mode), more element types / qualifiers / cross-type pairs.
+E4  Trace_C17 judges every event of the concatenated trace.
+Compile census: the batches matched by ABSENT do not compile on the unchanged tree.  They are excluded from the units and
+reported as `absent` events, which Trace_C17 classifies (by design / known deviation / bad); the thorough tier re-compiles every
+one of them on its own.  A batch that should compile and does not is a VIOLATION naming the batch."""
 import json, os, re, sys, time
 import vlib
 from vlib import log
@@ -25,7 +31,7 @@ TRACE_MODULE = "Trace_C17"
 def is_hole(impl, sl, setname, name):
     """accessors recorded as missing inside a family that otherwise exists (they get a batch of their own, suffix _holes)"""
     if impl == "free":
-        return setname == "xyzw" and (sl, name) in ((4, "xyz"), (3, "xyzz"), (4, "xyzz"))
+        return setname == "xyzw" and (sl, name) == (4, "xyzz")
     if impl == "opw":       # 3-letter accessors naming the 4th component: _swizzle<3,T,Q,E0,E1,E2,3> counts the filler E3 = 3 as a duplicate
         return sl == 4 and len(name) == 3 and setname[3] in name
     return False
@@ -34,7 +40,7 @@ def is_hole(impl, sl, setname, name):
 ABSENT = [
     (r"\w+_swz_(fn|op)_1_[234]_\w+", "vec1 declares no swizzle accessors (the macro invocations are commented out in type_vec1.hpp)"),
     (r"fn_swz_free_\d_\d_(rgba|stpq)", "gtx/vec_swizzle.hpp defines xyzw names only"),
-    (r"fn_swz_free_\d_\d_xyzw_holes", "gtx/vec_swizzle.hpp lacks xyz(vec4), xyzz(vec3), xyzz(vec4)"),
+    (r"(fn|op|avx2)_swz_free_4_4_xyzw\w*_holes", "xyzz(vec4) is not defined (xyz(vec4) and xyzz(vec3), also absent from gtx/vec_swizzle.hpp, come from func_common.inl)"),
     (r"(op|avx2)_swzw_4_3_\w+_holes", "3-letter accessors of a vec4 that name the 4th component are not assignable: the duplicate test of _swizzle compares the filler index E3 = 3 too"),
     (r"xyzw_swz_(fn|mem)_\d_\d_(rgba|stpq)", "GLM_FORCE_XYZW_ONLY removes the rgba / stpq names"),
     (r"(op|avx2)_swz_op_2_3_\w+", "3-letter operator accessors of a vec2 are declared _swizzle<3,T,Q,E0,E1,E2,-1>, which has no operator() (type_vec2.hpp GLM_SWIZZLE2_3_MEMBERS)"),
@@ -133,7 +139,8 @@ class Unit:
 
 
 items_cache = {}
-IS_SWZ = lambda n, i: "_swz" in n
+IS_AV2 = lambda n, i: n.endswith("_av2")
+IS_SWZ = lambda n, i: "_swz" in n and not n.endswith("_av2")
 IS_CTOR = lambda n, i: "_swz" not in n
 ALL = lambda n, i: True
 
@@ -158,6 +165,7 @@ def run(ctx):
             "qxyzw": Family(ctx, "qxyzw", "qxyzw", th, "g++", gdir)}
     units = [Unit("fn_swz", fams["fn"], "g++", "-O1", IS_SWZ), Unit("fn_ctor", fams["fn"], "g++", "-O1", IS_CTOR),
              Unit("op_swz", fams["op"], "clang++", "-O0", IS_SWZ), Unit("op_ctor", fams["op"], "clang++", "-O0", IS_CTOR),
+             Unit("op_av2", fams["op"], "g++", "-O0", IS_AV2),
              Unit("xyzw", fams["xyzw"], "g++", "-O1", ALL), Unit("qwxyz", fams["qwxyz"], "g++", "-O1", ALL), Unit("qxyzw", fams["qxyzw"], "g++", "-O1", ALL)]
     if th:
         fams["avx2"] = Family(ctx, "avx2", "avx2", True, "clang++", gdir)
@@ -165,7 +173,7 @@ def run(ctx):
         units += [Unit("avx2_swz", fams["avx2"], "clang++", "-O0", IS_SWZ), Unit("avx2_ctor", fams["avx2"], "clang++", "-O0", IS_CTOR),
                   Unit("fnclang_swz", fams["fn"], "clang++", "-O1", IS_SWZ), Unit("fnclang_ctor", fams["fn"], "clang++", "-O1", IS_CTOR),
                   Unit("opg_ctor", fams["opg"], "g++", "-O0", IS_CTOR)]
-        units += [Unit("opg_swz%d" % k, fams["opg"], "g++", "-O0", (lambda k: lambda n, i: "_swz" in n and i % 6 == k)(k)) for k in range(6)]
+        units += [Unit("opg_swz%d" % k, fams["opg"], "g++", "-O0", (lambda k: lambda n, i: IS_SWZ(n, i) and i % 6 == k)(k)) for k in range(6)]
         # census: every batch recorded as absent is compiled on its own
         cens = [f for f in fams.values() if f.absent and f.key != "opg"]
         vlib.pmap(lambda f: f.make_pch(), cens)
